@@ -212,10 +212,37 @@ class MonInversion(object):
 # ---------------------------------------------------------------------------------------
 # cases
 # ---------------------------------------------------------------------------------------
+def gen_returning_worker(rng):
+    """Contention that arises *between* changes of the waiting list: long independent (or lightly
+    linked) tasks, specialists who are always there, and a versatile worker who is individually absent
+    for a block of steps and returns while the priority keys of the waiting tasks have moved."""
+    n = rng.randint(2, 4)
+    tasks = []
+    for k in range(n):
+        deps = [[k - 1, rng.choice([G.FS, G.SS])]] if k and rng.random() < 0.25 else []
+        tasks.append(G._simple_task(k, rng.choice([4, 5, 6, 8, 10, 12]), deps))
+        tasks[-1]["wkr"] = rng.choice([-1, 0, 1, 2])
+    workers = []
+    for k in range(n):
+        if rng.random() < 0.8:
+            workers.append(G._worker(0, k, {"t%d" % k: rng.choice([0.5, 1.0, 1.0, 2.0])}, cost=1.0))
+    a0 = rng.choice([0, 0, 1, 2, 3])
+    block = list(range(a0, a0 + rng.randint(2, 7)))
+    for j in range(rng.randint(1, 2)):
+        w = G._worker(0, n + j, {"t%d" % k: rng.choice([1.0, 1.0, 2.0]) for k in range(n) if rng.random() < 0.85}, cost=1.0)
+        w["absence"] = block if j == 0 else sorted(rng.sample(range(0, 12), 3))
+        workers.append(w)
+    teams = [dict(name="team0", id="TM0", targets=list(range(n)), workers=workers)]
+    return dict(tasks=tasks, comps=[], wps=[], teams=teams,
+                sim=dict(rule=rng.choice([0, 6, 5, 4, 6, 5]), absence=[], auto_flag=False, max_time=80))
+
+
 def make_case(prop, seed, i, tier):
     rng = rng_for(prop, seed, i)
     if i % 2 == 0:
         return dict(prop=prop, i=i, kind="direct", seed=rng.randrange(10 ** 9), n_calls=40)
+    if i % 8 == 3:
+        return dict(prop=prop, i=i, kind="sim", spec=gen_returning_worker(rng), family="returning-worker")
     spec = G.gen_random(rng, G.profile(facility_rich=rng.random() < 0.45, min_tasks=3, ensure_worker=0.9))
     # contention: many tasks share few workers
     if rng.random() < 0.5:
